@@ -21,12 +21,14 @@ class C09(Prop):
     thorough_runs = 150000
 
     def families(self, tier):
-        return [("history", 1)]
+        return [("history", 4), ("two-engines", 1)]
 
     def expected_counters(self, tier):
         return ["probe.mac-checked", "probe.mac-md5", "probe.mac-sha", "probe.mac-with-priv", "probe.mac-long-form-message", "probe.unsigned-checked", "probe.mac-after-discovery", "probe.mac-after-boots-change"]
 
     def gen(self, rng, family, tier):
+        if family == "two-engines":
+            return v3common.two_engine_plan(rng, tier, [l for l in gen.SEC_LEVELS if l != "noauth"])
         return v3common.history_plan(rng, tier, gen.SEC_LEVELS)
 
     def check(self, run):
